@@ -146,5 +146,15 @@ func genBoundary(r *hx.RNG, kind string) *msgIn {
 	default:
 		m.cl = -1
 	}
+	if (m.status >= 100 && m.status <= 199) || m.status == 204 || m.status == 304 {
+		// no body is sent with these statuses whatever the Body field holds
+		if len(m.body) > 0 {
+			m.body = nil
+			if len(m.te) == 0 && m.cl > 0 {
+				m.cl = 0
+				m.hdr["Content-Length"] = []string{"0"}
+			}
+		}
+	}
 	return m
 }
